@@ -28,11 +28,14 @@ func legalFor(e *catalog.Entry, maxVals int) [][]src.Script {
 	if n == 2 {
 		mv = maxVals - 1
 	} else if n >= 3 {
-		mv = 1
+		mv = maxVals - 1 // lengths 0..2 (3 thorough) per source: which source is the shortest matters per arity
 	}
 	alphabet := []int{0, 1, 2}
 	if n >= 2 {
 		alphabet = []int{1, 2}
+	}
+	if n >= 3 {
+		alphabet = []int{1} // the shape (lengths, endings) is what varies; 9 (13) scripts per source
 	}
 	one := src.LegalScripts(alphabet, mv)
 	var keep []src.Script
@@ -98,6 +101,24 @@ func plan(tier string, seed int64) []driver.Case {
 				}
 				k := scriptsKey(ss)
 				cases = append(cases, driver.Case{ID: fmt.Sprintf("op/%s/%s/%s", e.Name, k, mode), P: map[string]string{"kind": "op", "entry": e.Name, "scripts": k, "mode": mode}})
+			}
+		}
+	}
+	// the same single-source entries over values outside the small alphabet: negative ones, a large
+	// one, and a mix (comparisons, extrema, sums, sign handling, keys)
+	for _, e := range catalog.All() {
+		if e.Model == nil || e.NSrc != 1 || e.Flags.Has(catalog.Creation) {
+			continue
+		}
+		for _, alphabet := range [][]int{{-3, -1, -2}, {-2, 5, 17}} {
+			for _, sc := range src.LegalScripts(alphabet, maxVals) {
+				if _, end := sc.Values(); e.Flags.Has(catalog.Blocks) && end == rec.Next {
+					continue
+				}
+				if len(sc) < 2 {
+					continue // the short ones say nothing new about values
+				}
+				cases = append(cases, driver.Case{ID: fmt.Sprintf("opwide/%s/%s", e.Name, sc), P: map[string]string{"kind": "op", "entry": e.Name, "scripts": sc.String(), "mode": "unsafe"}})
 			}
 		}
 	}
